@@ -249,16 +249,22 @@ class World:
             return st is not None and st.StateVersion != ent.state.StateVersion
         return False
 
-    def remember_entities(self):
-        """An application fetches entities now and may write them (much) later: keep copies of a few, hot ones preferred."""
+    def pick_remember(self):
+        """An application fetches entities now and may write them (much) later: which ones (hot ones preferred). The choice is
+        part of the script (replays repeat it); the copies are taken when the script is executed."""
         r = self.rng
-        m = self.mdib
         pool = self.descr_handles(lambda d: d.parent_handle is not None)
+        out = []
         for _ in range(2):
             if not pool:
-                return
+                break
             hot = [h for h in self.hot if h in pool]
-            h = r.choice(hot) if (hot and r.random() < 0.6) else r.choice(pool)
+            out.append(r.choice(hot) if (hot and r.random() < 0.6) else r.choice(pool))
+        return out
+
+    def remember_entities(self, handles):
+        m = self.mdib
+        for h in handles:
             try:
                 ent = m.entities.by_handle(h)
             except KeyError:
@@ -273,11 +279,12 @@ class World:
     # ---------------- script generation (type/state directed, 80 % enabled ops)
     def gen_script(self):
         r = self.rng
-        if r.random() < 0.4:
-            self.remember_entities()
+        remember = self.pick_remember() if r.random() < 0.4 else []
         x = r.random()
         tx = 'S' if x < 0.5 else ('C' if x < 0.7 else 'D')
         script = {'tx': tx, 'catch': r.random() < 0.15, 'raise': r.random() < 0.12, 'calls': []}
+        if remember:
+            script['remember'] = remember
         if tx == 'S':
             kind = r.choice(STATE_KINDS)
             script['kind'] = kind
@@ -468,6 +475,7 @@ class World:
         """Run one script on the real ProviderMdib. Returns dict(outcome, error, result, handed_out, tx_items)."""
         m = self.mdib
         tx = script['tx']
+        self.remember_entities(script.get('remember', []))
         self.emit('begin ' + (f"S {script['kind']}" if tx == 'S' else tx), 'ok')
         info = {'outcome': None, 'error': None, 'handed': {}, 'calls_rejected': 0}
         prev_result = m.transaction
@@ -821,7 +829,17 @@ class World:
                     _, h, tmpl, n = call
                     if m.descriptions.handle.get_one(h, allow_none=True) is not None:
                         return
-                    e = fresh(h, tmpl)
+                    if h in self.removed_descr:
+                        # a handle that comes back denotes the same kind of thing: same descriptor class as before
+                        old_d = self.removed_descr[h][0]
+                        if m.descriptions.handle.get_one(old_d.parent_handle, allow_none=True) is None:
+                            return
+                        e = m.entities.new_entity(old_d.NODETYPE, h, old_d.parent_handle)
+                        for name, _p in old_d.sorted_container_properties():
+                            if name not in ('Handle', 'DescriptorVersion'):
+                                setattr(e.descriptor, name, copy.deepcopy(getattr(old_d, name)))
+                    else:
+                        e = fresh(h, tmpl)
                     if e is None or e.is_multi_state:
                         return
                     self.mutate_descr(e.descriptor, n)
@@ -836,6 +854,7 @@ class World:
                     child = fresh(ch, ctmpl, parent=ph)
                     if child is None or child.is_multi_state:
                         return
+                    child.descriptor._source_mds = parent.descriptor.source_mds  # noqa: SLF001  (the child lives where its parent lives)
                     ents = [child, parent]                     # child first: write_entities has to write the parent first
                     if extra is not None:
                         try:
